@@ -25,7 +25,8 @@ def run_replay(mod, spec: dict, ctx: Ctx) -> None:
         ctx.record(case, res)
         ctx.labels["replayed:" + item.get("origin", "?")] += 1
         if res.failures:
-            ctx.add_failure(case, [f"[replay {item.get('name', '?')}] " + m for m in res.failures])
+            from .core import bucket_of
+            ctx.add_failure(case, [f"[replay {item.get('name', '?')}] " + m for m in res.failures], bucket=bucket_of(res.failures))
 
 
 def run_known(mod, spec: dict, ctx: Ctx) -> None:
